@@ -48,7 +48,7 @@ func (e *Engine) newCtx(key string) *FuncCtx {
 	// silently constrain nothing
 	if c.contract != nil {
 		for _, cl := range c.contract.Clauses {
-			if (cl.Kind == "invariant" || cl.Kind == "decreases" || cl.Kind == "peel") && cl.Loop > n {
+			if (cl.Kind == "invariant" || cl.Kind == "decreases" || cl.Kind == "peel" || cl.Kind == "exit") && cl.Loop > n {
 				c.limit = fmt.Sprintf("'loop %d ...' clause but the function has %d loops", cl.Loop, n)
 			}
 		}
